@@ -431,7 +431,11 @@ func (s *session) bytesFor(st Step, id int) ([]byte, string) {
 		m := wire.NewMsgInv()
 		for i := 0; i < st.Count; i++ {
 			h := mkTx(uint32(id*1000+i), 1).TxHash()
-			m.AddInvVect(wire.NewInvVect(wire.InvTypeTx, h))
+			t := wire.InvTypeTx
+			if st.Variant == "mixed" { // block announcements and other item types between the tx items
+				t = []wire.InvType{wire.InvTypeTx, wire.InvTypeBlock, wire.InvTypeBlock, wire.InvTypeFilteredBlock, wire.InvTypeError}[(id+i*i+st.Count)%5]
+			}
+			m.AddInvVect(wire.NewInvVect(t, h))
 		}
 		return frame("inv", encode(m)), fmt.Sprintf("MInv %d", st.Count)
 	case "tx":
@@ -815,6 +819,9 @@ func genSession(r *coqfmt.Rand, id int, profile string) Case {
 				st.Cmd = "addr"
 			case 2:
 				st.Cmd = "inv"
+				if r.Chance(1, 2) {
+					st.Variant = "mixed"
+				}
 			case 3:
 				st.Cmd = "tx"
 			case 4:
@@ -905,6 +912,9 @@ func genSession(r *coqfmt.Rand, id int, profile string) Case {
 				st.Cmd = "addr"
 			case 3:
 				st.Cmd = "inv"
+				if r.Chance(1, 2) {
+					st.Variant = "mixed"
+				}
 			case 4, 5:
 				st.Cmd = "tx"
 			case 6:
